@@ -327,7 +327,10 @@ theorem interN_is_meet (n : Nat) (xs : List Ctx) (hne : xs ≠ []) :
   ⟨fun x hx => interN_le n xs x hx, fun y hy => interN_glb n xs y hne hy⟩
 
 /-- a `Split` branch without static context (a bare fill/compute or fill/request element, which `Split` keeps as
-it is) is transparent: it does not take part in the intersection ("not intersecting the others with {}") -/
+it is) does not take part in the intersection ("not intersecting the others with {}").  NB: this is transparency
+*relative to the other branches* only — if no branch at all has a context the intersection is over nothing and the
+`Split` exports `{}` (`interN n [] = {}`, as `lena.context.intersection()` does), i.e. it erases the static context;
+see the recorded judgement on degenerate Splits (ASSUMPTIONS of harness/props/c13.py). -/
 theorem split_transparent_branch (n : Nat) (b : Tree) (bs : List Tree) (c : Ctx) (hb : b.hasGet = false) :
     fold n (.split (b :: bs)) c = fold n (.split bs) c := by
   simp [fold, foldB, hb]
@@ -972,6 +975,16 @@ example : (build 2 (.seq .sequence [.leaf (.set 1 [] (.const (.int 1))), .leaf .
 example : (Tree.leaf .data).hasGet = false := rfl
 example : Hist 2 [Val.empty 2] [some (.leaf (.int 1)), none] :=
   ⟨by intro h hh; simp only [List.mem_singleton] at hh; subst hh; exact ⟨empty_leL 2 _, rfl⟩, rfl⟩
+-- hypothesis of `mkfCall_frame`: a call that succeeds (static context {b: 1}, run-time context {a: …} keeps `a`)
+example : ∃ r, mkfCall 2 ⟨0, 1, 0, 1, 0, 1⟩ { methods := [(.filename, { head := "f", parts := [] })], overwrite := false }
+    (some [none, some (.leaf (.int 1))]) [none, none] = some r := ⟨_, rfl⟩
+-- hypotheses of `getRec_error_spec` / `fold_error_origin` / `surfaced_key_is_missing`: `ex2` (key b = 1 is missing)
+example : getRec [some (.leaf (.int 1)), none] [1] = .error 1 := rfl
+example : getCtx 2 (build 2 ex2) = .error 1 ∧ ex2.hasGet = true := ⟨rfl, rfl⟩
+-- hypotheses of `split_branches_independent`: the two stores of `ex1` are handed different objects
+example : tokAt (.split [.seq .sequence [.leaf .store], .seq .sequence [.leaf .store]]) [2] ([0], 0) [0, 0] = some ([2, 0], 1) ∧
+    tokAt (.split [.seq .sequence [.leaf .store], .seq .sequence [.leaf .store]]) [2] ([0], 0) [1, 0] = some ([2, 1], 1) :=
+  ⟨rfl, rfl⟩
 -- hypotheses of `skip_sound`: `{} ⊑ {a: 1}`, and the Split that empties both
 example : leL (Val.empty 2) [some (.leaf (.int 1)), none] := by simp [leL, leO, Val.empty, List.replicate]
 -- hypothesis of `delivered_wf` / `exported_wf`
